@@ -192,6 +192,7 @@ def Transaction.unmarshalJSON (p : Params) (old : Option Transaction) (j : Json)
     if (ins.getD []).any Option.isNone then .err                   -- "transaction input is null"
     else if (outs.getD []).any Option.isNone then .err             -- "transaction output is null"
     else if generateId p ins outs d.timestamp ≠ d.id then .err     -- "wrong transaction ID"
+    else if lenOf outs > 65536 then .err                           -- "too many outputs" (indexes are uint16; fix: commit)
     else
       let t := old.getD Transaction.zero
       if lenOf ins = 0 then
